@@ -237,6 +237,15 @@ func (w *c09World) replay(hist []c09Op, tag string) {
 	c.Class("histories")
 	if nontrivial {
 		c.Distinct(tag)
+		// a full history with what the model holds at its end, as a sample of what was observed
+		var hs []string
+		for _, o := range hist {
+			hs = append(hs, o.String())
+		}
+		if len(hs) > 16 {
+			hs = append(hs[:16], fmt.Sprintf("... (%d operations)", len(hist)))
+		}
+		c.Sample("history with a rejection followed by a later acceptance (all steps agreed with the model)", map[string]any{"operations": hs, "verified_clients_at_end": len(verified), "bindings_at_end": fmt.Sprint(bind)})
 	}
 }
 
